@@ -1044,6 +1044,7 @@ class OdeSystem(object):
             callback = [callback]
 
         end_int = False
+        __landing_failure = None
         self.__allocate_soln_space(total_steps)
         try:
             # the target also counts as reached within two ulp of it: a remaining distance of one ulp is halved into a step that
@@ -1130,9 +1131,10 @@ class OdeSystem(object):
                             __counter_before_landing = self.counter
                             try:
                                 self.integrate(roots[-1])
-                            except BaseException:
+                            except BaseException as __landing_error:
                                 # the landing failed part of the way: the events of this step that lie beyond what was
                                 # recorded go with the step (a resumed call finds them again)
+                                __landing_failure = __landing_error
                                 self.__events[__events_before_step:] = [
                                     __rec for __rec in self.__events[__events_before_step:]
                                     if (__rec.t - self.__t[self.counter]) * (1 if dTime >= 0 else -1) <= 0]
@@ -1178,6 +1180,11 @@ class OdeSystem(object):
             self.__int_status = e
             raise e
         except Exception as e:
+            if e is __landing_failure and isinstance(e, etypes.FailedIntegration):
+                # raised by the nested call that re-integrates up to a terminal event: it is the report of that failure and
+                # carries the original cause already
+                self.__int_status = e
+                raise
             new_e = etypes.FailedIntegration("Failed to integrate system")
             new_e.__cause__ = e
             self.__int_status = new_e
